@@ -174,6 +174,15 @@ def configs():
                     maxs=[1.0, 1.0], check_hitbounds=True, accept_nan=False))
     out.append(dict(names=["X1", "__w"], defaults=[0.5, 0.0], mins=[0.0, -1.0],
                     maxs=[1.0, 1.0], check_hitbounds=True, accept_nan=True))
+    # long element names (file paths, station descriptions), two of them sharing their
+    # first 64 / 128 characters
+    long_a = "rainfall_station_" + "x" * 60 + "_upstream_gauge_A"
+    out.append(dict(names=[long_a, long_a[:-1] + "B"], defaults=[0.5, 0.5],
+                    mins=[0.0, 0.0], maxs=[1.0, 2.0], check_hitbounds=True,
+                    accept_nan=False))
+    out.append(dict(names=["p" * 65, "q" * 300, "r" * 129 + "1", "r" * 129 + "2"],
+                    defaults=[0.5, 0.0, 1.0, 1.0], mins=[0.0, -1.0, 0.0, 0.0],
+                    maxs=[1.0, 1.0, 2.0, 2.0], check_hitbounds=False, accept_nan=True))
     out.append(dict(names=[], defaults=[], mins=[], maxs=[], check_hitbounds=True,
                     accept_nan=False))
     out.append(dict(names=[], defaults=[], mins=[], maxs=[], check_hitbounds=False,
@@ -327,13 +336,46 @@ def apply_op(ctx, v, m, op, case):
                 xs[op[1] % len(m.names)] = op[2]
         else:
             xs = op[1] if kind == "all" else list(m.values) + [0.25]
+        if kind == "all" and len(xs):
+            # the same numbers in the containers callers hold them in: object arrays,
+            # exact rationals / decimals, None for a missing value, text
+            from fractions import Fraction as _Fr
+            from decimal import Decimal as _De
+            form = (ctx.evaluations + len(xs)) % 8
+            fx = [float(x) for x in xs]
+            try:
+                if form == 1:
+                    xs = np.array(fx, dtype=object)
+                elif form == 2:
+                    xs = [_Fr(x) if math.isfinite(x) else x for x in fx]
+                elif form == 3:
+                    xs = [_De(repr(x)) if math.isfinite(x) else _De("NaN")
+                          if math.isnan(x) else x for x in fx]
+                elif form == 4:
+                    xs = [None if math.isnan(x) else x for x in fx]
+                elif form == 5:
+                    xs = np.array([repr(x) for x in fx])
+                elif form == 6:
+                    import pandas as _pd
+                    xs = _pd.Series(fx, dtype=object)
+                elif form in (7, 0):
+                    # a float64 array the caller goes on using after the assignment
+                    xs = np.array(fx, dtype=np.float64)
+                if form in (1, 2, 3, 4, 5, 6):
+                    ctx.tag("vec:values-in-non-float-container")
+                    np.asarray(xs).astype(np.float64)     # must be convertible at all
+            except Exception:
+                xs = fx
+            expect_all = fx
+        else:
+            expect_all = None
         if kind == "all_edit" and len(m.names):
             expect = list(m.values)
             expect[op[1] % len(m.names)] = op[2]
         elif kind == "all_self":
             expect = list(m.values)
         else:
-            expect = xs
+            expect = expect_all if expect_all is not None else xs
         m2 = m.copy()
         acc = m2.set_all([float(x) for x in expect])
         try:
@@ -341,13 +383,18 @@ def apply_op(ctx, v, m, op, case):
             raised = False
         except ValueError:
             raised = True
+        if kind == "all" and isinstance(xs, np.ndarray) and xs.dtype == np.float64 \
+                and xs.size:
+            ctx.tag("vec:caller-edits-array-after-assignment")
+            xs += 0.37
+            xs[...] = xs[::-1].copy()
         if acc:
             ctx.check("assign.accepted", not raised, "Vector|values|rejects-valid",
                       case, {"op": op})
             nontriv = not feq(m2.values, m.values) or m2.hit
             if m2.hit:
                 ctx.tag("vec:clipped")
-            if any(math.isnan(float(x)) for x in xs):
+            if any(math.isnan(float(x)) for x in expect):
                 ctx.tag("vec:nan-stored")
             m = m2
         else:
